@@ -123,6 +123,29 @@ def o81(ctx):
         ctx.finding(q4, "inputs", "the input lists must not be modified", fn4, m4)
 
 
+def dedup_semantics(df):
+    """-> (effective lexicographic sort keys [(column term, ascending)], de-duplications [(subset term, keep)]) of a table's history.
+    A multi-key sort is stable; a later stable sort refines on top of the order it finds, a later unstable one forgets it.  The first row per
+    id is drop_duplicates(subset=id) or the complement of duplicated(subset=id, keep='first') taken on the sorted rows."""
+    notes = [n for n in df.notes if n[0] in ("sort_values", "drop_duplicates")]
+    keys = []
+    for n in (n for n in notes if n[0] == "sort_values"):
+        by_ = list(n[1].args) if n[1].op == "vec" else [n[1]]
+        asc_ = list(n[2].args) if n[2].op == "vec" else [n[2]] * len(by_)
+        stable = len(by_) > 1 or tm.cval(n[3]) in ("stable", "mergesort")
+        keys = list(zip(by_, [tm.cval(a_) for a_ in asc_])) + (keys if stable else [])
+    dd = [(n[1], tm.cval(n[2])) for n in notes if n[0] == "drop_duplicates"]
+    for f_ in df.filters:
+        if f_.op == "not" and f_.args[0].op == "call" and f_.args[0].args[0] == "duplicated" and len(f_.args[0].args) == 4:
+            dd.append((f_.args[0].args[2], tm.cval(f_.args[0].args[3])))
+        else:
+            dd.append((None, None))
+    # a de-duplication recorded before the last sort acted on another order
+    last_sort = max([i_ for i_, n in enumerate(notes) if n[0] == "sort_values"], default=-1)
+    early = [n for n in notes[:last_sort] if n[0] == "drop_duplicates"]
+    return keys, dd, early
+
+
 def o84(ctx):
     """renumbering and merging"""
     q = M + "renumber_particles"
@@ -234,6 +257,17 @@ def o84(ctx):
         ctx.count(n_red, {"min/max of an input's object numbers behind an emptiness test": n_red})
         if n_red < 2:
             raise Unsupported("object-number range of the inputs (min / max of object_id) not found in the merge", fn)
+        if q.endswith("merge_and_drop_duplicates"):
+            # one row per subtomogram number, the best-scoring one over *all* inputs: the only de-duplication is the final one, taken on the
+            # whole merged table sorted by (number ascending, score descending) -- dropping rows while the inputs are still being collected
+            # keeps whichever copy came first
+            keys, dd, early = dedup_semantics(res)
+            ctx.count(1, {"merge_and_drop_duplicates": {"effective sort keys": [(tm.show(k_), a_) for k_, a_ in keys], "de-duplications": len(dd)}})
+            okd = keys[:2] == [(const("subtomo_id"), True), (const("score"), False)] and dd == [(const("subtomo_id"), "first")] and not early
+            if not okd:
+                ctx.finding(q, fn, "duplicates must be dropped once, on the whole merged table sorted by (subtomo_id ascending, score descending), keeping "
+                            "the first row per number: the best-scoring copy over all inputs", fn, m,
+                            history=[str(n)[:80] for n in res.notes if n[0] in ("sort_values", "drop_duplicates")])
         if q.endswith("merge_and_renumber"):
             t = res.cols["subtomo_id"]
             ctx.count(1)
